@@ -574,7 +574,7 @@ def extra_phase(tier, base_seed, prop="C17"):
         def real(extra, hs):
             p = subprocess.run([sys.executable, "-W", "ignore", os.path.join(code, "prince_ling.py")] + base + extra,
                                stdin=subprocess.DEVNULL, stdout=subprocess.PIPE, stderr=subprocess.DEVNULL, timeout=300,
-                               env=dict(os.environ, PYTHONUTF8="1", PYTHONHASHSEED=str(hs)))
+                               env=scratch.child_env(PYTHONUTF8="1", PYTHONHASHSEED=str(hs)))
             out["real_process_runs"] += 1
             out["hash_seeds_used"].append(hs)
             return p.stdout
